@@ -1,5 +1,5 @@
-\* spec mutation (W_Avail = TRUE  W_Overhead = TRUE  W_Ports = FALSE  W_KeepTerm = TRUE  W_Override = TRUE  W_Refilter = TRUE): TLC must violate Inv_C01_EveryLaunchOptionHostsItsPods
+\* spec mutation (W_Avail = TRUE  W_Overhead = TRUE  W_Ports = FALSE  W_KeepTerm = TRUE  W_Override = TRUE  W_Refilter = TRUE  W_InitTaints = TRUE): TLC must violate Inv_C01_EveryLaunchOptionHostsItsPods
 CONSTANTS NPods = 2  PodArchs = {9,10}  Catalogs = {1}  PoolSets = {1}  Existings = {0}  Daemons = {0,3}
-CONSTANTS W_Avail = TRUE  W_Overhead = TRUE  W_Ports = FALSE  W_KeepTerm = TRUE  W_Override = TRUE  W_Refilter = TRUE
+CONSTANTS W_Avail = TRUE  W_Overhead = TRUE  W_Ports = FALSE  W_KeepTerm = TRUE  W_Override = TRUE  W_Refilter = TRUE  W_InitTaints = TRUE
 SPECIFICATION Spec
 INVARIANTS Inv_C01_NoOvercommit Inv_C01_EveryLaunchOptionHostsItsPods Inv_C01_RequiredTermNeverDropped
